@@ -82,9 +82,31 @@ pub(crate) fn remove_syntactic_sugar(
         if body.contains_anonymous_component(Some(reports)) {
             continue;
         }
+        if let Some(meta) = find_multi_substitution(body) {
+            // A multi-assignment without tuples (e.g. `1 = 2`) is invalid and
+            // has no counterpart in the IR, so the function is dropped as well.
+            reports.push(*TupleError::boxed_report(
+                meta,
+                "The left-hand side of an assignment in a function must be a variable.",
+            ));
+            continue;
+        }
         new_functions.insert(name.clone(), function.clone());
     }
     (new_templates, new_functions)
+}
+
+/// Returns the metadata of the first multi-assignment in the statement.
+fn find_multi_substitution(stmt: &Statement) -> Option<&Meta> {
+    match stmt {
+        Statement::MultiSubstitution { meta, .. } => Some(meta),
+        Statement::IfThenElse { if_case, else_case, .. } => find_multi_substitution(if_case)
+            .or_else(|| else_case.as_ref().and_then(|stmt| find_multi_substitution(stmt))),
+        Statement::While { stmt, .. } => find_multi_substitution(stmt),
+        Statement::InitializationBlock { initializations: stmts, .. }
+        | Statement::Block { stmts, .. } => stmts.iter().find_map(find_multi_substitution),
+        _ => None,
+    }
 }
 
 fn remove_anonymous_from_statement(
